@@ -19,7 +19,7 @@ def gen_cases(ctx, n):
     for i in range(n):
         prof = ["mixed", "windows", "assign", "dag", "flat", "mixed", "windows"][i % 7]
         c = mc.gen_history(ctx.rng, prof, nops=ctx.rng.randint(10, 24) if prof == "windows" else None,
-                           values="mixed" if i % 6 == 5 else "int")      # 1 in 6 over mixed value types (oracles only)
+                           values="mixed" if i % 6 == 5 else "int", literals=True)      # 1 in 6 over mixed value types (oracles only)
         lv = mc.leaves_of(c)
         fol = [[ctx.rng.choice(lv), ctx.rng.randint(-9, 9)] for _ in range(3)]
         if i % 3 == 0 and len(c["ops"]) > 3:
@@ -49,6 +49,9 @@ def oracle(cases, obs):
         for k, (op, o) in enumerate(zip(c["ops"], ol)):
             if o["oracle"]["canon"]:
                 fails.append((i, k, f"indices differ from what the surviving tasks define: {o['oracle']['canon']}"))
+                break
+            if o["err"] is None and o["oracle"].get("defn"):
+                fails.append((i, k, "a replaced definition survives: " + o["oracle"]["defn"]))
                 break
             if op[0] in ("set", "inplace") and o["err"] in ("KeyError", "RecursionError"):
                 fails.append((i, k, f"assignment raised {o['err']}"))
